@@ -156,7 +156,19 @@ func expect(c Case) ([]*hx.N, *stats, error) {
 	m := &model{c: c, st: &stats{n: map[string]int{}}, seen: map[string]bool{}}
 	data := map[string]any{}
 	for k, v := range c.Data {
-		data[k] = v.Go()
+		data[k] = modelValue(v)
+	}
+	if c.Root != "" {
+		m.st.add("root-data:" + c.Root)
+	}
+	if c.Entry != "" {
+		m.st.add("entry:" + c.Entry)
+	}
+	for _, v := range c.Data {
+		switch v.K {
+		case "[]srec", "[]*srec", "[]sstr", "[]*sstr":
+			m.st.add("slot-prop-value:" + v.K)
+		}
 	}
 	out, err := m.eval(c.Page, mctx{env: &menv{vars: data}})
 	if err == nil && len(c.Layout) == 0 && len(c.Hand) > 0 {
@@ -200,6 +212,10 @@ func (m *model) eval(nodes []Node, cx mctx) ([]*hx.N, error) {
 				}
 				if err != nil {
 					return nil, err
+				}
+				if p.S != "" {
+					sb.WriteString(same + p.S + ":" + identity(v) + "\x02")
+					continue
 				}
 				s, err := printable(v)
 				if err != nil {
